@@ -172,6 +172,9 @@ func (r *Reporter) Distinct(k, v string) {
 	r.mu.Unlock()
 }
 
+// AddEvals counts evaluations that are not journalled one by one (cells of an enumerated table).
+func (r *Reporter) AddEvals(n int64) { r.mu.Lock(); r.evals += n; r.mu.Unlock() }
+
 func (r *Reporter) Violations() int64 { r.mu.Lock(); defer r.mu.Unlock(); return r.viols }
 
 // Done flushes everything and writes the terminal record; a report without it
